@@ -39,6 +39,8 @@ def gty(t):
         return '(option %s)' % gty(t[1])
     if k == 'tuple':
         return '(%s)' % ' * '.join(gty(x) for x in t[1:])
+    if k == 'rec':
+        return '(%s)' % ' * '.join(gty(x) for (_, x) in t[1])
     raise Unsupported('type %r' % (t,))
 
 
@@ -67,7 +69,7 @@ def gz(n):
 
 
 def vname(n):
-    return 'v_' + n.replace('.', '_')
+    return 'v_' + n.replace('.', '_').replace('()', '_call')
 
 
 class Mode:
@@ -114,18 +116,36 @@ class FnTrans:
             raise Unsupported('constant %r' % (v,))
         if isinstance(e, ast.Name):
             return self.var(e.id, env, e)
+        if isinstance(e, ast.Call) and not e.args and not e.keywords:
+            key = (self.dotted(e.func) or '') + '()'
+            if key in env:
+                return self.var(key, env, e)
+            # method of a declared record: field named 'meth()'
+            if isinstance(e.func, ast.Attribute):
+                try:
+                    rc, rt, rg = self.expr(e.func.value, env, short)
+                except Unsupported:
+                    rt = None
+                if isinstance(rt, tuple) and rt[0] == 'rec':
+                    return self.project(rc, rt, e.func.attr + '()', e) + (rg,)
         if isinstance(e, ast.Attribute):
             key = self.dotted(e)
             if key and key in env:
                 return self.var(key, env, e)
+            if not (key and key in self.spec.get('consts', {})):
+                try:
+                    rc, rt, rg = self.expr(e.value, env, short)
+                except Unsupported:
+                    rt = None
+                if isinstance(rt, tuple) and rt[0] == 'rec':
+                    return self.project(rc, rt, e.attr, e) + (rg,)
             if key and key in self.spec.get('consts', {}):
                 return self.spec['consts'][key]
             raise Unsupported('attribute %s (line %d)' % (ast.dump(e)[:60], e.lineno))
         if isinstance(e, ast.UnaryOp):
             if isinstance(e.op, ast.Not):
                 c, t, g = self.expr(e.operand, env, short)
-                self.need(t, 'bool', e)
-                return '(negb %s)' % c, 'bool', g
+                return '(negb %s)' % self.truthy(c, t, e), 'bool', g
             if isinstance(e.op, ast.USub):
                 c, t, g = self.expr(e.operand, env, short)
                 self.need(t, 'Z', e)
@@ -146,7 +166,8 @@ class FnTrans:
             guards = []
             for i, v in enumerate(e.values):
                 c, t, g = self.expr(v, env, short or i > 0)
-                self.need(t, 'bool', v)
+                if t != 'bool':
+                    raise Unsupported('and/or on non-bool operands returns an operand, not a bool (line %d)' % v.lineno)
                 parts.append(c)
                 guards += g
             f = 'andb' if isinstance(e.op, ast.And) else 'orb'
@@ -213,6 +234,16 @@ class FnTrans:
                     [g for p in parts for g in p[2]])
         raise Unsupported('expression %s (line %d)' % (type(e).__name__, getattr(e, 'lineno', 0)))
 
+    def truthy(self, c, t, node):
+        """Python truth value of an expression of type t as a Gallina bool"""
+        if t == 'bool':
+            return c
+        if t == 'Z':
+            return '(negb (Z.eqb %s 0%%Z))' % c
+        if t == 'str' or (isinstance(t, tuple) and t[0] in ('list', 'set')):
+            return '(match %s with nil => false | cons _ _ => true end)' % c
+        raise Unsupported('truth value of %r (line %d)' % (t, getattr(node, 'lineno', 0)))
+
     def var(self, name, env, node):
         if name not in env:
             raise Unsupported('name %s is not bound here (line %d)' % (name, node.lineno))
@@ -222,6 +253,20 @@ class FnTrans:
             return ('(match %s with Some x_ => x_ | None => %s end)' % (vname(name), gdefault(t[1])), t[1],
                     [('(match %s with Some _ => true | None => false end)' % vname(name), 'UnboundE')])
         return vname(name), t, []
+
+    def project(self, code, rt, field, node):
+        names = [f for (f, _) in rt[1]]
+        if field not in names:
+            raise Unsupported('field %s of a record %r (line %d)' % (field, names, node.lineno))
+        i = names.index(field)
+        n = len(names)
+        # right-nested pairs are not used: (a, b, c) is ((a, b), c) in Gallina
+        c = code
+        for _ in range(n - 1 - i):
+            c = '(fst %s)' % c
+        if i > 0:
+            c = '(snd %s)' % c
+        return c, rt[1][i][1]
 
     def dotted(self, e):
         parts = []
@@ -278,6 +323,8 @@ class FnTrans:
                     c = '(py_str_in %s %s)' % (a, b)
                 elif ta == 'str' and isinstance(tb, tuple) and tb[0] in ('set', 'list') and tb[1] == 'str':
                     c = '(py_mem_str %s %s)' % (a, b)
+                elif ta == 'str' and isinstance(tb, tuple) and tb[0] in ('set', 'list') and tb[1] == ('opt', 'str'):
+                    c = '(py_mem_optstr %s %s)' % (a, b)
                 elif isinstance(r, ast.Tuple) and all(x == ta for x in tb[1:]) and ta in ('Z', 'str'):
                     eq = 'Z.eqb' if ta == 'Z' else 'str_eqb'
                     items = [self.expr(x, env, short)[0] for x in r.elts]
@@ -296,6 +343,9 @@ class FnTrans:
                 out.append('(' + f % (x, y) + ')')
             elif ta == 'str' and tb == 'str' and isinstance(op, (ast.Eq, ast.NotEq)):
                 c = '(str_eqb %s %s)' % (a, b)
+                out.append(c if isinstance(op, ast.Eq) else '(negb %s)' % c)
+            elif ta == 'str' and tb == ('opt', 'str') and isinstance(op, (ast.Eq, ast.NotEq)):
+                c = '(match %s with Some k_ => str_eqb %s k_ | None => false end)' % (b, a)
                 out.append(c if isinstance(op, ast.Eq) else '(negb %s)' % c)
             elif ta == 'bool' and tb == 'bool' and isinstance(op, (ast.Eq, ast.NotEq)):
                 c = '(Bool.eqb %s %s)' % (a, b)
@@ -328,6 +378,10 @@ class FnTrans:
             recv, tr, gr = self.expr(f.value, env, short)
             args = [self.expr(a, env, short) for a in e.args]
             g = gr + [x for a in args for x in a[2]]
+            if tr == 'str' and len(args) == 1 and args[0][1] == ('opt', 'str') and f.attr == 'startswith':
+                # str.startswith(None) raises TypeError
+                return ('(match %s with Some k_ => starts_with %s k_ | None => false end)' % (args[0][0], recv), 'bool',
+                        g + [('(match %s with Some _ => true | None => false end)' % args[0][0], 'TypeErrorE')])
             if tr == 'str' and len(args) == 1 and args[0][1] == 'str':
                 m = {'startswith': 'starts_with', 'endswith': 'py_endswith'}.get(f.attr)
                 if m:
@@ -427,7 +481,7 @@ class FnTrans:
                 raise Unsupported('.add on something that is not a declared set (line %d)' % s.lineno)
             c, t, g = self.expr(s.value.args[0], env)
             if t != env[x][1]:
-                raise Unsupported('set element type (line %d)' % s.lineno)
+                raise Unsupported('set element type %r, declared %r (line %d)' % (t, env[x][1], s.lineno))
             return self.guarded(g, '(let %s := (%s :: %s) in %s)' % (vname(x), c, vname(x), self.stmts(rest, env, mode)), mode)
         if isinstance(s, ast.If):
             nar = self.narrowing(s.test, env)
@@ -440,7 +494,7 @@ class FnTrans:
                     vname(x), self.stmts(list(none_body) + rest, env, mode),
                     vname(x), self.stmts(list(some_body) + rest, env2, mode))
             c, t, g = self.expr(s.test, env)
-            self.need(t, 'bool', s)
+            c = self.truthy(c, t, s)
             return self.guarded(g, '(if %s\n then %s\n else %s)' % (
                 c, self.stmts(list(s.body) + rest, env, mode), self.stmts(list(s.orelse) + rest, env, mode)), mode)
         if isinstance(s, ast.For):
@@ -547,8 +601,9 @@ class FnTrans:
             elif isinstance(n, (ast.For, ast.While)):
                 raise Unsupported('nested loops')
         targets = self.target_names(s.target)
-        used_after = {n.id for st in rest for n in ast.walk(st) if isinstance(n, ast.Name)}
-        carried = [x for x in written if x in env]                      # initialised before the loop
+        used_after = {n.id for st in rest for n in ast.walk(st) if isinstance(n, ast.Name) and isinstance(n.ctx, ast.Load)}
+        # initialised before the loop (a loop target that already exists is rebound by every iteration)
+        carried = [x for x in written if x in env] + [x for x in targets if x in env and x not in written]
         leak = [x for x in list(targets) + written if x not in env and x in used_after and x not in carried]
         leak = list(dict.fromkeys(leak))
         self.counter += 1
@@ -567,12 +622,24 @@ class FnTrans:
         def sname(x):
             return 'v__yield' if x == '%yield' else vname(x)
 
+        def is_maybe(t):
+            return isinstance(t, tuple) and t[0] == 'maybe'
+
         def pack(names_env):
-            parts = [sname(x) for x in carried] + ['(Some %s)' % sname(x) if x in names_env and not (
-                isinstance(names_env[x], tuple) and names_env[x][0] == 'maybe') else sname(x) for x in leak]
+            parts = []
+            for x in carried + leak:
+                st_maybe = x in leak or is_maybe(env.get(x))
+                if st_maybe and x in names_env and not is_maybe(names_env[x]):
+                    parts.append('(Some %s)' % sname(x))
+                else:
+                    parts.append(sname(x))
             return '(%s)' % ', '.join(parts) if len(parts) > 1 else parts[0]
         pat = '(%s)' % ', '.join(sname(x) for x in state_names) if len(state_names) > 1 else sname(state_names[0])
         st_t = ' * '.join([gty(t) for t in st_types] + ['option %s' % gty(leak_types[x]) for x in leak])
+        # a carried loop target must keep its type
+        for x, t in tt.items():
+            if x in carried and (env[x][1] if is_maybe(env[x]) else env[x]) != t:
+                raise Unsupported('loop target %s changes type (line %d)' % (x, s.lineno))
         body_env = dict(env)
         for x in leak:
             body_env[x] = ('maybe', leak_types[x])
@@ -727,6 +794,22 @@ UNITS = {
                  py_defaults={'line': 'None', 'column': 'None'},
                  passthrough=dict(callee='func', args=[1, 2]),
                  ret=('tuple', 'Z', 'Z')),
+        ]),
+    # C11: the parameter index of a call prefix
+    'C11_index': dict(
+        file='jedi/api/helpers.py',
+        funcs=[
+            dict(name='CallDetails.calculate_index', gname='gen_calculate_index',
+                 # _list_arguments() yields (star_count, key_start, had_equal)
+                 args=[('args_in', ('list', ('tuple', 'Z', ('opt', S), 'bool'))),
+                       ('param_names', ('list', ('rec', (('string_name', S), ('get_kind()', 'Z')))))],
+                 arg_map={'args_in': 'self._list_arguments()', 'param_names': 'param_names'},
+                 locals={'used_names': ('set', ('opt', S))},
+                 # inspect._ParameterKind is an IntEnum; the numbers are compared with the interpreter by selftest()
+                 consts={'Parameter.POSITIONAL_ONLY': ('(0)%Z', 'Z', []), 'Parameter.POSITIONAL_OR_KEYWORD': ('(1)%Z', 'Z', []),
+                         'Parameter.VAR_POSITIONAL': ('(2)%Z', 'Z', []), 'Parameter.KEYWORD_ONLY': ('(3)%Z', 'Z', []),
+                         'Parameter.VAR_KEYWORD': ('(4)%Z', 'Z', [])},
+                 ret=('opt', 'Z')),
         ]),
     # C20: sys.path de-duplication
     'C20_dedupe': dict(
